@@ -59,7 +59,7 @@ def _work(idx: int) -> dict:
     t0 = time.time()
     out: Dict[str, Any] = {
         "name": inst.name, "paths": 0, "ok_paths": 0, "aborted": 0, "unsupported": [], "inconclusive": [],
-        "errors": [], "labels": {}, "violations": [], "unreproduced": [], "validated": 0, "validation_mismatch": [],
+        "errors": [], "labels": {}, "violations": [], "concretized": [], "unreproduced": [], "validated": 0, "validation_mismatch": [],
         "goals": [], "samples": [], "queries": 0, "solver_s": 0.0, "branches": 0, "functions": {},
     }
     L.start_trace()
@@ -108,7 +108,23 @@ def _work(idx: int) -> dict:
         if r.status == "abort":
             out["aborted"] += 1
         elif r.status == "unsupported":
-            out["unsupported"].append(r.detail[:300])
+            # outside the modelled subset: degrade this path to a solver-chosen concrete
+            # run on the real build (DESIGN 1.3); a failing labelled assertion there is a
+            # reproduced violation, a passing run claims nothing beyond that one input
+            done = False
+            if r.witness is not None:
+                I, err = _concrete_run(inst, r.witness)
+                if err is None or I.failed:
+                    done = True
+                    out["concretized"].append(r.detail[:200])
+                    for lab in I.failed:
+                        d = out["labels"].setdefault(lab, {"proved": 0, "failed": 0})
+                        d["failed"] += 1
+                        if not any(v["label"] == lab for v in out["violations"]):
+                            out["violations"].append({"label": lab, "instance": inst.name, "inputs": r.witness,
+                                                      "note": "found on a concretized path: " + r.detail[:120], "count": 1})
+            if not done:
+                out["unsupported"].append(r.detail[:300])
         elif r.status == "inconclusive":
             out["inconclusive"].append(r.detail[:300])
         for lab in r.proved:
@@ -218,6 +234,7 @@ def run_property(pid: str, instances: List[Instance], meta: dict, tier: str, see
     samples = []
     goals_missing = []
     unsupported = []
+    concretized = []
     for inst, o in zip(_INSTANCES, outs):
         for k in tot:
             tot[k] += o.get(k, 0)
@@ -238,6 +255,8 @@ def run_property(pid: str, instances: List[Instance], meta: dict, tier: str, see
             inconclusive.append(f"{inst.name}: {x}")
         for x in o["unsupported"]:
             unsupported.append(f"{inst.name}: {x}")
+        for x in o["concretized"]:
+            concretized.append(f"{inst.name}: {x}")
         miss = [g for g in inst.goals if g not in o["goals"]]
         if miss and not o["errors"]:
             goals_missing.append(f"{inst.name}: coverage goals not witnessed: {miss}")
@@ -313,7 +332,9 @@ def run_property(pid: str, instances: List[Instance], meta: dict, tier: str, see
             "outside_bounds": meta.get("outside_bounds", []),
             "assertions": labels,
             "coverage_goals_missing": goals_missing,
-            "concretized_or_unsupported_paths": unsupported[:20],
+            "concretized_paths": len(concretized),
+            "concretized_paths_sample": concretized[:10],
+            "unsupported_paths": unsupported[:20],
             "inconclusive": inconclusive[:20],
             "harness_problems": problems[:20],
             "known_findings_seen": [k.get("what") for k, _ in known_seen][:20],
